@@ -280,7 +280,7 @@ def summarize(w: World, env: Env) -> dict:
         socks.append({
             'index': s.index, 'kind': s.kind, 'connected': s.connected, 'closed': s.closed,
             'closed_at': None if s.closed_at is None else round(s.closed_at - EPOCH, 3),
-            'tx': per, 'tx_err': err, 'tx_rest': len(rest), 'rx_left': len(s.rx), 'consumed': s.consumed,
+            'tx': per, 'tx_err': err, 'tx_rest': len(rest), 'rx_left': len(s.rx), 'consumed': s.consumed, 'accepted': s.accepted,
         })
     peers = []
     for key in sorted(w.reactor._peers):
